@@ -1,4 +1,6 @@
 """C02 -- all reports of a terminated process's outcome agree and waiters are released."""
+import itertools
+
 from pv import judges, lifecycle, plans, programs
 
 ID = 'C02'
@@ -15,11 +17,13 @@ ASSUMPTIONS = ['expected outcome is computed from the program text and the reque
 REQUIRED = ['terminated', 'final/finished', 'final/excepted', 'final/killed', 'kill_while_paused', 'kill_in_step', 'kill_from_listener',
             'unsuccessful_by_outputs']
 ALPHABET = [['pause', 'p'], ['play'], ['kill', 'k'], ['resume', ['v']], ['fail', 'f'], ['soon_raise', 'c']]
-BOUNDS = {'quick': 'basic program family (+required-output variants), K<=2 exhaustive', 'thorough': '+ 40 random programs, K=3 sampled'}
+BOUNDS = {'quick': 'basic program family (+required-output variants), K<=2 exhaustive', 'thorough': 'K=3 exhaustive on 4 key programs, + 40 random programs, K=3 sampled'}
+
+
+DEEP = ('wait_async', 'cont_async', 'out_async', 'wait2')  # thorough: K=3 exhaustive on these
 
 
 def gen_cases(tier, seed):
-    cases = []
     progs = {k: (v, False) for k, v in programs.basic_programs().items()}
     S = programs.step
     progs['req_missing'] = ({'steps': [S(['cont', [], {}], yields=1), S(['value', 3], yields=1)]}, True)
@@ -41,10 +45,12 @@ def gen_cases(tier, seed):
             plist.append([{'at': ['step', i], 'act': ['kill', 'k']}])
         if tier == 'thorough':
             plist += list(plans.sampled_placements(rng, n, ALPHABET, 3, 1500))
-        for i, plan in enumerate(plist):
-            cases.append({'name': name, 'program': prog, 'plan': plans.uniq(plan, 'q%d' % i), 'drain': True, 'probe': False,
-                          'barrage': False, 'listener': True, 'req_output': req})
-    return cases
+        deep = ()
+        if tier == 'thorough' and name in DEEP:
+            deep = (p for p in plans.all_placements(n, [['pause', 'p'], ['play'], ['kill', 'k'], ['resume', ['v']]], 3) if True)
+        for i, plan in enumerate(itertools.chain(plist, deep)):
+            yield {'name': name, 'program': prog, 'plan': plans.uniq(plan, 'q%d' % i), 'drain': True, 'probe': False,
+                          'barrage': False, 'listener': True, 'req_output': req}
 
 
 def run_case(case):
